@@ -232,7 +232,10 @@ def setrep(tier, seed, runner, lines):
     params update of the main run the harness dumped the raw stored representation (normalised string, the 11
     offsets with their zeros, flag word, segment count, scheme index) before and after; the model, run on the
     BEFORE state, must produce the AFTER state exactly, return the same bool, and the result must be a
-    representation of the record the record-level setter (Impl.setValid) computes."""
+    representation of the record the record-level setter (Impl.setValid) computes.  The same for every parse:
+    the operational model of the parser driving url_serializer (Impl/ParseRep.lean, `parseRep`) on the input and
+    the raw representation of the base must give the raw representation of the result (or fail when the C++
+    fails), and that must be a representation of the record the record-level parser (Impl.parse) computes."""
     steps = getattr(runner, 'main_steps', None) or []
     cov = {'steps': len(steps)}
     viol = []
@@ -243,6 +246,7 @@ def setrep(tier, seed, runner, lines):
     for (i, s), a in zip(steps, ans):
         t = s.split(' ', 3)
         k = t[0] + (':' + t[1] if t[0] == 'set' else '')
+        if t[0] == 'parse': k = 'parse:' + ('no-base' if ' | - | ' in s else 'base') + (':ok' if not s.endswith(' | -') else ':fail')
         kinds[k] = kinds.get(k, 0) + 1
         parts = s.split(' | ')
         if len(parts) == 3 and parts[1] != parts[2]: changed += 1
